@@ -258,6 +258,20 @@ def restart(ctx, rng, idx):
     ctx.true("restart-same-object", res2[-1].it == N + M, "restart/final-field-iteration-tag", {"it": res2[-1].it, "expected": N + M}, cls="restart-same-object")
     _check_monitor_records(ctx, s, log2, mons, {}, iname)
     ctx.ev("restart-monitor-tags")
+    # restart with ANOTHER CFL number on an object that has just solved with the first one == the same restart on a fresh object
+    if iname != "gear":
+        cfl2 = cfl * float(rng.choice([0.5, 0.37, 1.6 if implicit else 0.8]))
+        S6 = make(); S6.solve(s.field, cfl, stop={"maxit": N})
+        t6, _, _ = _traj(S6.restart, mid, cfl2, stop={"maxit": M}, directives={"dtlocal": True} if rng.random() < 0.2 else {})
+        dirs6 = solvelog.LOGS[-1].directives
+        t7, _, _ = _traj(make().restart, mid, cfl2, stop={"maxit": M}, directives=dict(dirs6))
+        if all(np.all(np.isfinite(d)) for d in t6[-1]["data"] + t7[-1]["data"]):
+            if implicit and s.model.islinear:
+                if not s.rname.startswith("muscl"):
+                    d = _diff(t7[-1], t6[-1])
+                    ctx.close("restart-other-cfl-linear", max(d["max data diff / max|q|"], abs(d["dtime"]) / (abs(t7[-1]["time"]) + 1e-300)), 1e-4 * max(1.0, cfl), "restart/other-cfl/state-depends-on-previous-call/implicit-linear", d, cls="restart-same-object")
+            else:
+                ctx.true("restart-same-object", _same(t7[-1], t6[-1]), "restart/other-cfl/state-depends-on-previous-call/" + who, dict(_diff(t7[-1], t6[-1]), cfl_first=cfl, cfl_restart=cfl2), cls="restart-same-object")
     # a solve() after the restart starts counting from zero again (iteration tags, monitor records, totnit)
     mons2 = {k: {kk: vv for kk, vv in v.items() if kk != "output"} for k, v in mons.items()}
     t4, res4, log4 = _traj(S.solve, s.field, cfl, stop={"maxit": N}, monitors=mons2)
